@@ -17,7 +17,8 @@ from .. import common
 from ..common import Ctx
 from ..vloop import VLoop
 
-THEOREMS = ["C11_duty_window", "C11_sleep_exact", "C11_gap_window", "C11_mq_bounded_wait", "C11_mq_allowance", "C11_mq_invariant", "C11_allowance_as_stated"]
+THEOREMS = ["C11_duty_window", "C11_sleep_exact", "C11_gap_window", "C11_mq_bounded_wait", "C11_mq_allowance", "C11_mq_invariant", "C11_allowance_as_stated",
+            "C11_concurrent_level_floor", "C11_duty_window_concurrent", "C11_duty_window_concurrent_from", "C11_concurrent_floor_is_reached"]
 
 TPS = 1 << 20
 RATE_BITS_S = 384
@@ -25,10 +26,12 @@ CAP_BITS = 384 * 60
 MAX_FRAME_BITS = 330 + 96 * 10
 GAP_S = 0.05
 
-PRELUDE = ("From Coq Require Import ZArith List Bool.\nFrom RV Require Import GenConsts M_Regulate.\nImport ListNotations.\nOpen Scope Z_scope.\n"
+PRELUDE = ("From Coq Require Import ZArith List Bool.\nFrom RV Require Import GenConsts M_Regulate M_RegulateK.\nImport ListNotations.\nOpen Scope Z_scope.\n"
            "Set Printing Width 1000000.\nSet Printing Depth 1000000.\n"
            "Definition adm (arrs : list (Z * Z)) : list Z := map r_wr (schedule RATE CAPACITY CAPACITY 0 (map (fun p => (fst p, frame_size (snd p))) arrs)).\n"
            "Definition b2z (b : bool) : Z := if b then 1 else 0.\n"
+           "Definition ck (K : Z) (evs : list cev) : list (Z * Z) := ctrace RATE CAPACITY K (cinit CAPACITY 0) evs.\n"
+           "Definition A (i t n : Z) : cev := CArr i t (frame_size n).\n"
            "Definition gchk (G : Z) (evs : list gev) : list Z := [b2z (gvalid true evs)].\n"
            "Definition mqr (ts : list Z) : list (Z * Z) := map (fun p => (b2z (fst p), snd p)) (mq_run (mq0 0) ts).\n"
            "Definition consts : list Z := [RATE; CAPACITY; frame_size 96; MIN_INTER_WRITE_GAP_us; TOKEN; TRATE; MAX_TRANSMIT_RATE_TOKENS].\n")
@@ -58,6 +61,11 @@ def port_run(arrivals, sequential):
     assert tr.perf_counter() == loop.time()
     tr._global_sync_cycles.clear()
     events, out, rec = [], [], {}
+    seq = []            # arrivals and writes in the order they happened, with the closure's own bits_in_bucket as each write found it
+
+    def bucket_level():
+        fn = tr.PortTransport.write_frame
+        return dict(zip(fn.__code__.co_freevars, fn.__closure__))["bits_in_bucket"].cell_contents
 
     class Sem(asyncio.BoundedSemaphore):
         async def acquire(self):
@@ -83,6 +91,7 @@ def port_run(arrivals, sequential):
         def _write(self, data):
             events.append(("W", loop.time()))
             rec[asyncio.current_task()]["wr"] = loop.time()
+            seq.append(("W", rec[asyncio.current_task()]["k"], loop.time(), bucket_level()))
             out.append(data)
 
     rows = []
@@ -91,6 +100,7 @@ def port_run(arrivals, sequential):
     async def one(t, n, k):
         me = asyncio.current_task()
         rec[me] = {"arr": loop.time(), "n": n, "k": k}
+        seq.append(("A", k, loop.time(), n))
         frame = "RQ --- 18:000730 01:145038 --:------ 0000 %03d " % n + f"{k % 256:02X}" * n
         rec[me]["frame"] = frame
         await t.write_frame(frame)
@@ -121,6 +131,8 @@ def port_run(arrivals, sequential):
         for k in ("arr", "adm", "wr", "done"):
             r[k] -= t0[0]
     events = [(k, t - t0[0]) for k, t in events]
+    port_run.seq = [(a, k, t - t0[0], x) for a, k, t, x in seq]
+    port_run.final_level = bucket_level()
     return rows, events, out
 
 
@@ -213,14 +225,17 @@ def window_oracle(ctx, rows, events, out, pattern, K, arrivals, sequential):
     for b in bs:
         pre.append(pre[-1] + b)
     worst = None
+    # the proven bound (C11_duty_window_concurrent_from): rate x span + one bucket + one frame per call pending when the window's first write
+    # happens (that writer included) + K-1 frames; for sequential callers (K = 1) this is the sequential theorem's bound
+    pend_at = [sum(1 for r in rows if r["arr"] <= t <= r["wr"]) for t in ts]
     for i in range(len(ws)):
         for j in range(i, len(ws)):
-            excess = (pre[j + 1] - pre[i]) - RATE_BITS_S * (ts[j] - ts[i]) - CAP_BITS - K * MAX_FRAME_BITS
+            excess = (pre[j + 1] - pre[i]) - RATE_BITS_S * (ts[j] - ts[i]) - CAP_BITS - (min(pend_at[i], K) + K - 1) * MAX_FRAME_BITS
             if worst is None or excess > worst[0]:
                 worst = (excess, i, j)
     if worst and worst[0] > 1e-6:
         ctx.violation("duty-cycle-window-exceeded", f"writes {worst[1]}..{worst[2]} hand the radio {pre[worst[2] + 1] - pre[worst[1]]} bits in {ts[worst[2]] - ts[worst[1]]:.3f} s: "
-                      f"{worst[0]:.1f} bits above rate x window + bucket + {K} frame(s)", {**case, "window": [ts[worst[1]], ts[worst[2]]]}, "schedule")
+                      f"{worst[0]:.1f} bits above rate x window + bucket + one frame per call pending at its start + {K - 1} frame(s)", {**case, "window": [ts[worst[1]], ts[worst[2]]]}, "schedule")
     wt = [t for k, t in events if k == "W"]
     worst_g = None
     for i in range(len(wt)):
@@ -251,8 +266,8 @@ def run(ctx: Ctx) -> None:
                 "and unbounded): the window bounds with K = the largest number of writes pending at once, order and integrity of what was written; (c) the real "
                 "MqttTransport.write_frame: accept/discard decisions and sleeps vs the model; non-trivial = a pattern in which at least one write had to wait or was "
                 "dropped; distinct = by arrival pattern")
-    ctx.assumptions += ["the duty-cycle theorem is for sequential use (one write_frame at a time): with concurrent callers each is admitted on the level it saw on arrival, "
-                        "and the bound with K pending frames is checked by the oracle only",
+    ctx.assumptions += ["concurrent callers: each call of the wrapper is two instants (arrival: top-up and decision; write: debit), a write may be delayed arbitrarily beyond "
+                        "the sleep its caller computed; K = the largest number of calls pending at once is a parameter of the run, not a constant of the code",
                         "avoid_system_syncs is inert (no sync cycle known): its timing depends on the wall clock",
                         "MQTT tokens: the model is exact (rate 4/3 token/s); the implementation's binary64 decides differently only when the level is exactly at the discard "
                         "threshold; a run is compared up to such a tie",
@@ -282,6 +297,7 @@ def run(ctx: Ctx) -> None:
         impl_ok.append(all(b - a >= int(GAP_S * TPS) for a, b in zip(tt, tt[1:])))   # consecutive releases at least a gap apart (52428.8 ticks)
         window_oracle(ctx, rows, events, out, pat, 1, arr, True)
     n_con = 42 if thorough else 14
+    coq_k, impl_k = [], []
     for i in range(n_con):
         pat = pats[i % len(pats)]
         arr = gen_arrivals(rng, pat, rng.randint(20, 60) if pat in ("idle-gaps", "burst", "steady-below") else rng.randint(80, 150) if pat.startswith("flood") else rng.randint(30, 150))
@@ -294,6 +310,13 @@ def run(ctx: Ctx) -> None:
             K = max(K, cur)
         ctx.case(("concurrent", pat, tuple(arr)), K > 1, f"concurrent:{pat}")
         window_oracle(ctx, rows, events, out, pat, K, arr, False)
+        # the real interleaving as a run of the concurrent model: accepted, and every write finds the level the model says (exact, 2^-20 bit)
+        coq_k.append(f"ck {K} [" + "; ".join((f"A {k} {ticks(t)} {2 * x}" if a == "A" else f"CWr {k} {ticks(t)}") for a, k, t, x in port_run.seq) + "]")
+        impl_k.append([(1, lvl * TPS) for a, k, t, lvl in port_run.seq if a == "W"])
+        floor = min([lvl - (330 + 20 * next(r["n"] for r in rows if r["k"] == k)) for a, k, t, lvl in port_run.seq if a == "W"] + [port_run.final_level])
+        if floor < -(K - 1) * MAX_FRAME_BITS - 1e-6:
+            ctx.violation("bucket-overdrawn-beyond-pending-frames", f"the bucket level fell to {floor:.1f} bits with at most {K} calls pending at once (floor: -{K - 1} frames)",
+                          {"pattern": pat, "arrivals": arr, "max_pending": K}, "schedule")
     # MQTT
     n_mq = 30 if thorough else 8
     coq_m, impl_m = [], []
@@ -316,12 +339,13 @@ def run(ctx: Ctx) -> None:
         if any(r["written"] is not None and r["written"] - r["t"] > 1.0 + 2 / TPS for r in res):
             ctx.violation("mqtt-write-queued-longer-than-a-second", "an accepted MQTT write slept longer than one second", {"times": times[:50]}, "schedule")
     if not built:
-        for n in ("duty-cycle-admission-times", "write-gap-semaphore", "mqtt-token-bucket", "constants"):
+        for n in ("duty-cycle-admission-times", "concurrent-bucket-levels", "write-gap-semaphore", "mqtt-token-bucket", "constants"):
             ctx.obligation("correspondence:" + n, False, "correspondence", "model not built")
         return
     files = {"adm": PRELUDE + "".join(f"Eval vm_compute in ({c}).\n" for c in coq_adm),
              "gap": PRELUDE + "".join(f"Eval vm_compute in ({c}).\n" for c in coq_g),
              "mq": PRELUDE + "".join(f"Eval vm_compute in ({c}).\n" for c in coq_m),
+             "ck": PRELUDE + "".join(f"Eval vm_compute in ({c}).\n" for c in coq_k),
              "k": PRELUDE + "Eval vm_compute in consts.\n"}
     res = common.coq_eval("C11", files, timeout=900)
 
@@ -339,6 +363,22 @@ def run(ctx: Ctx) -> None:
         ctx.obligation("correspondence:duty-cycle-admission-times", not bad, "correspondence",
                        f"{len(bad)} of {len(impl_adm)} runs differ; first: run {bad[0][0]} request {bad[0][1]}: model {got[bad[0][0]][bad[0][1]]} ticks, implementation {impl_adm[bad[0][0]][bad[0][1]]} ticks"
                        if bad else f"{sum(len(m) for m in impl_adm)} admissions in {len(impl_adm)} runs agree to the tick")
+    got, err = lists("ck", r"list \(Z \* Z\)")
+    if got is None or len(got) != len(impl_k):
+        ctx.obligation("correspondence:concurrent-bucket-levels", False, "correspondence", err or f"{len(got)} results for {len(impl_k)}")
+    else:
+        bad = []
+        for i, (g, m) in enumerate(zip(got, impl_k)):
+            g = list(g)
+            if (0, 0) in g:
+                bad.append(f"run {i}: the real interleaving is not a run of the model (event {g.index((0, 0))} refused: a write earlier than the sleep the model computes, or more calls pending than counted)")
+                continue
+            gw = [x for x in g if x[0] == 1]
+            if len(gw) != len(m) or any(a[1] != b[1] for a, b in zip(gw, m)):
+                k = next((k for k, (a, b) in enumerate(zip(gw, m)) if a[1] != b[1]), min(len(gw), len(m)))
+                bad.append(f"run {i} write {k}: model level {gw[k][1] if k < len(gw) else None}, implementation {m[k][1] if k < len(m) else None} (2^-20 bit)")
+        ctx.obligation("correspondence:concurrent-bucket-levels", not bad, "correspondence",
+                       f"{len(bad)} of {len(impl_k)} runs differ; first: {bad[0]}" if bad else f"{sum(len(m) for m in impl_k)} writes in {len(impl_k)} concurrent runs: every interleaving is a run of the model and every write finds exactly the model's level")
     got, err = lists("gap", r"list Z")
     ok = got is not None and len(got) == len(impl_ok) and all(list(g) == [1] for g in got) and all(impl_ok)
     ctx.obligation("correspondence:write-gap-semaphore", ok, "correspondence", err or ("" if ok else f"gvalid {[list(g) for g in got][:5]} spaced {impl_ok[:5]}"))
